@@ -2,7 +2,7 @@
    [value]. The OCaml driver only parses and prints values; the same [run_case] is evaluated by
    vm_compute in the thorough tier. *)
 From Coq Require Import String Ascii List ZArith NArith Bool DecimalString.
-From Bkl Require Import Model.Value Model.Merge Model.Str Model.Eval Model.Tools Model.Parser Model.Wrapper Model.Files.
+From Bkl Require Import Model.Value Model.Merge Model.Str Model.Eval Model.Tools Model.Parser Model.Wrapper Model.Files Model.Yaml.
 Import ListNotations.
 Local Open Scope string_scope.
 Local Open Scope list_scope.
@@ -95,6 +95,26 @@ Definition dec_fs (v : value) : fsys :=
         else [(n, FReg (match dec_res x with Ok (VList l) => Ok l | Ok _ => Err EOracle | Err e => Err e end))]
     | _ => []
     end) (list_of v).
+
+(* a yaml.v3 node tree as a value: ["s", tag, text] | ["seq", [...]] | ["map", [[k, v], ...]] | ["alias", node] | ["empty"] *)
+Fixpoint dec_ynode (fuel : nat) (v : value) : ynode :=
+  match fuel with
+  | 0 => YEmpty
+  | S f =>
+      match v with
+      | VList [VStr t; VStr tag; VStr text] => if String.eqb t "s" then YScalar tag text else YEmpty
+      | VList [VStr t; x] =>
+          if String.eqb t "alias" then YAlias (dec_ynode f x)
+          else match x with
+               | VList l =>
+                   if String.eqb t "seq" then YSeq (map (dec_ynode f) l)
+                   else if String.eqb t "map" then YMap (flat_map (fun kv => match kv with VList [k; y] => [(dec_ynode f k, dec_ynode f y)] | _ => [] end) l)
+                   else YEmpty
+               | _ => YEmpty
+               end
+      | _ => YEmpty
+      end
+  end.
 
 Definition opt_str (v : value) : option string := match v with VStr s => Some s | _ => None end.
 
@@ -197,6 +217,8 @@ Definition run_case (c : value) : value :=
                     (bkl_cli o (map str_of (list_of (lookup_or_null "fmts" (map_of t)))) (dec_fs fsv) opts)
         | _ => bad_case
         end
+      else if String.eqb opn "ynode" then
+        match args with [n] => enc_res (fun x => x) (ytranslate (dec_ynode (size n) n)) | _ => bad_case end
       else if String.eqb opn "wrap" then
         (* [table; args]: table maps an argument to ["file", fmt] or ["fail"]; answer: the plan *)
         match args with
